@@ -242,8 +242,10 @@ pub fn generate(rng: &mut Rng, fault_free: bool) -> K17 {
     let reconnect_at_us = if !fault_free && args.iter().any(|a| a == "--retry-tcp") && rng.chance(0.6) { Some(100_000 + rng.below(duration_us)) } else { None };
     // long sessions. The coverage sweep makes radar itself quadratic (it redraws every cell every
     // frame), so it only runs in the thorough tier; the compass sweep is cheap enough for quick.
-    let sweep = if !fault_free && simcore::deep() && rng.chance(0.004) { 34_000 + rng.usize_below(3_000) } else { 0 };
-    let compass = if !fault_free && sweep == 0 && rng.chance(0.003) { 18_000 } else { 0 };
+    // (VERIF_C17_MODE=sweep|compass forces a mode for every faulted run: debugging aid)
+    let forced = std::env::var("VERIF_C17_MODE").unwrap_or_default();
+    let sweep = if !fault_free && ((simcore::deep() && rng.chance(0.004)) || forced == "sweep") { 34_000 + rng.usize_below(3_000) } else { 0 };
+    let compass = if !fault_free && sweep == 0 && (rng.chance(0.003) || forced == "compass") { 18_000 } else { 0 };
     if sweep > 0 || compass > 0 {
         let total = if sweep > 0 { sweep as u64 } else { compass as u64 + 3 };
         let quit_at_us = total * 10_600 + 3_000_000;
